@@ -447,7 +447,8 @@ class AsyncHTTP2Connection(AsyncConnectionInterface):
             self._connection_error = True
             raise exc
 
-        events: list[h2.events.Event] = self._h2_state.receive_data(data)
+        with map_exceptions({h2.exceptions.ProtocolError: RemoteProtocolError}):
+            events: list[h2.events.Event] = self._h2_state.receive_data(data)
 
         return events
 
